@@ -170,7 +170,7 @@ def pilot(source, rng, nops):
     return ops, r.trace, changing, r
 
 
-def make_pair(rng, tier):
+def make_pair(rng, tier, force=None):
     """-> (sourceA, sourceB, kind)"""
     def modes():
         return {"fully_obs": rng.random() < 0.4, "flat_actions": True,
@@ -192,6 +192,9 @@ def make_pair(rng, tier):
 
     k = rng.choice(["same", "same", "same_layout", "twin", "twin",
                     "different", "different", "different_modes"])
+    if force == "tiny_small":
+        # the documented witness of the recorded finding KF-C19-layout
+        return shipped("tiny"), shipped("small"), "different"
     if k == "twin":
         # same layout, content differing in exactly one field
         sp = synth.synth(rng, "quick", max_hosts=6, live=1.0)
@@ -361,7 +364,7 @@ def schedules(na, nb, rng, limit):
 
 def pair_case(acc, rng, tier, pair_id):
     z = SIZES[tier]
-    A, B, kind = make_pair(rng, tier)
+    A, B, kind = make_pair(rng, tier, "tiny_small" if pair_id == 0 else None)
     short = rng.random() < 0.5 and not kind.startswith("twin")
     lo = z["ops"] - 4 if kind.startswith("twin") else 5
     na = rng.randint(3, 4) if short else rng.randint(lo, z["ops"])
